@@ -121,25 +121,60 @@ fn gen_pair(src: &mut Src) -> Pair {
         }
         1 => {
             let n = [1i128, 5, 255, 70000][src.pick(4)];
+            // another type (sorting before or after) may declare the same identifiers with other
+            // numbers; the named numbers may belong to the type itself or to a referenced type
+            let decoy = hname(src, "Decoy", true);
+            let with_decoy = src.chance(60);
+            let via_ref = src.chance(40);
+            let owner = hname(src, "Owner", true);
+            let mut helpers = vec![];
+            if with_decoy {
+                helpers.push(format!("{decoy} ::= INTEGER {{ low(3), top({}) }}", n + 4));
+            }
+            let (sug, exp) = if via_ref {
+                helpers.push(format!("{owner} ::= INTEGER {{ low(0), top({n}) }}"));
+                (format!("{TARGET} ::= {owner} (low..top)"), format!("{TARGET} ::= {owner} (0..{n})"))
+            } else {
+                (format!("{TARGET} ::= INTEGER {{ low(0), top({n}) }} (low..top)"), format!("{TARGET} ::= INTEGER {{ low(0), top({n}) }} (0..{n})"))
+            };
+            let mut expanded = helpers.clone();
+            expanded.push(exp);
             Pair {
-                kind: "named-number".into(),
-                sugared: vec![format!("{TARGET} ::= INTEGER {{ low(0), top({n}) }} (low..top)")],
-                expanded: vec![format!("{TARGET} ::= INTEGER {{ low(0), top({n}) }} (0..{n})")],
-                wrong: vec![("F-named-number-bound".to_string(), vec![format!("{TARGET} ::= INTEGER {{ low(0), top({n}) }} (MIN..MAX)")])],
+                kind: format!("named-number decoy={with_decoy} via_ref={via_ref}"),
+                sugared: arrange(src, helpers, sug),
+                expanded,
+                wrong: if via_ref { vec![] } else { vec![("F-named-number-bound".to_string(), vec![format!("{TARGET} ::= INTEGER {{ low(0), top({n}) }} (MIN..MAX)")])] },
                 header,
-                nontrivial: false,
+                nontrivial: with_decoy || via_ref,
             }
         }
         // (b) COMPONENTS OF
         2 => {
             let base = hname(src, "Base", true);
             let nb = 1 + src.pick(3);
-            let base_comps: Vec<String> = (0..nb).map(|i| format!("b{i} {}{}", leaf(src), if src.chance(30) { " OPTIONAL" } else { "" })).collect();
+            // a component of the referenced type may be constrained through a value reference
+            let lim = [7i128, 255, 70000][src.pick(3)];
+            let vname = hname(src, "lim", false);
+            let mut uses_ref = false;
+            let mut base_comps: Vec<String> = vec![];
+            let mut base_comps_sug: Vec<String> = vec![];
+            for i in 0..nb {
+                let opt = if src.chance(30) { " OPTIONAL" } else { "" };
+                if src.chance(25) {
+                    uses_ref = true;
+                    base_comps_sug.push(format!("b{i} INTEGER (0..{vname}){opt}"));
+                    base_comps.push(format!("b{i} INTEGER (0..{lim}){opt}"));
+                } else {
+                    let l = leaf(src);
+                    base_comps_sug.push(format!("b{i} {l}{opt}"));
+                    base_comps.push(format!("b{i} {l}{opt}"));
+                }
+            }
             let base_ext = src.chance(35);
             let base_def = if base_ext {
-                format!("{base} ::= SEQUENCE {{ {}, ..., bx NULL }}", base_comps.join(", "))
+                format!("{base} ::= SEQUENCE {{ {}, ..., bx NULL }}", base_comps_sug.join(", "))
             } else {
-                format!("{base} ::= SEQUENCE {{ {} }}", base_comps.join(", "))
+                format!("{base} ::= SEQUENCE {{ {} }}", base_comps_sug.join(", "))
             };
             let npre = src.pick(3);
             let npost = src.pick(3);
@@ -179,7 +214,7 @@ fn gen_pair(src: &mut Src) -> Pair {
             }
             Pair {
                 kind: format!("components-of pre={npre} post={npost} base_ext={base_ext} own_additions={nadd}"),
-                sugared: arrange(src, vec![base_def], format!("{TARGET} ::= SEQUENCE {{ {} }}", sug.join(", "))),
+                sugared: arrange(src, if uses_ref { vec![base_def, format!("{vname} INTEGER ::= {lim}")] } else { vec![base_def] }, format!("{TARGET} ::= SEQUENCE {{ {} }}", sug.join(", "))),
                 expanded: vec![format!("{TARGET} ::= SEQUENCE {{ {} }}", exp.join(", "))],
                 wrong,
                 header,
@@ -254,18 +289,32 @@ fn gen_pair(src: &mut Src) -> Pair {
                 nontrivial: k > 0,
             }
         }
-        // (e) fixed-type class field
+        // (e) fixed-type class field; the fixed type may carry a constraint, written with a literal
+        // or with a value reference (which the expansion resolves)
         _ => {
-            let t = ["INTEGER", "BOOLEAN", "OBJECT IDENTIFIER", "IA5String"][src.pick(4)];
-            let cls = if src.chance(50) { "AA-CLASS" } else { "ZZ-CLASS" };
-            let cls_def = format!("{cls} ::= CLASS {{ &id {t} UNIQUE, &Type }} WITH SYNTAX {{ ID &id TYPE &Type }}");
-            let as_comp = src.chance(50);
-            let (sug, exp) = if as_comp {
-                (format!("{TARGET} ::= SEQUENCE {{ f {cls}.&id, g NULL }}"), format!("{TARGET} ::= SEQUENCE {{ f {t}, g NULL }}"))
-            } else {
-                (format!("{TARGET} ::= {cls}.&id"), format!("{TARGET} ::= {t}"))
+            let lim = [7i128, 255, 70000][src.pick(3)];
+            let vname = hname(src, "max-id", false);
+            let (t_sug, t_exp, helper): (String, String, Option<String>) = match src.pick(7) {
+                0 => ("INTEGER".into(), "INTEGER".into(), None),
+                1 => ("BOOLEAN".into(), "BOOLEAN".into(), None),
+                2 => ("OBJECT IDENTIFIER".into(), "OBJECT IDENTIFIER".into(), None),
+                3 => ("IA5String".into(), "IA5String".into(), None),
+                4 => (format!("INTEGER (0..{lim})"), format!("INTEGER (0..{lim})"), None),
+                5 => (format!("INTEGER (0..{vname})"), format!("INTEGER (0..{lim})"), Some(format!("{vname} INTEGER ::= {lim}"))),
+                _ => (format!("IA5String (SIZE (1..{vname}))"), format!("IA5String (SIZE (1..{lim}))"), Some(format!("{vname} INTEGER ::= {lim}"))),
             };
-            Pair { kind: format!("class-field comp={as_comp}"), sugared: arrange(src, vec![cls_def], sug), expanded: vec![exp], wrong: vec![], header, nontrivial: false }
+            let cls = if src.chance(50) { "AA-CLASS" } else { "ZZ-CLASS" };
+            let cls_def = format!("{cls} ::= CLASS {{ &id {t_sug} UNIQUE, &Type }} WITH SYNTAX {{ ID &id TYPE &Type }}");
+            let pos = src.pick(3);
+            let (sug, exp) = match pos {
+                0 => (format!("{TARGET} ::= {cls}.&id"), format!("{TARGET} ::= {t_exp}")),
+                1 => (format!("{TARGET} ::= SEQUENCE {{ f {cls}.&id, g NULL }}"), format!("{TARGET} ::= SEQUENCE {{ f {t_exp}, g NULL }}")),
+                _ => (format!("{TARGET} ::= CHOICE {{ f {cls}.&id, g NULL }}"), format!("{TARGET} ::= CHOICE {{ f {t_exp}, g NULL }}")),
+            };
+            let mut helpers = vec![cls_def];
+            let with_ref = helper.is_some();
+            helpers.extend(helper);
+            Pair { kind: format!("class-field pos={pos} constrained_by_reference={with_ref}"), sugared: arrange(src, helpers, sug), expanded: vec![exp], wrong: vec![], header, nontrivial: with_ref }
         }
     }
 }
